@@ -63,7 +63,11 @@ Record tcase := {
   c_tbl : list (list tok);      (* distinct observed rows *)
   c_fd : Z;                     (* disguise pairs observed on the rows of [content()] *)
   c_full : list Z;              (* rows of [content()] *)
-  c_obs : list tobs
+  c_obs : list tobs;
+  (* flow render: [upscale (0/1); maxcol; fit w; fit h; original w; original h; rows() before
+     render; rows() after render], [fit] / [original] = the image's [_valid_size] evaluated in
+     the environment current at that render; [] for a box render *)
+  c_flow : list Z
 }.
 
 (** ** equality tests *)
@@ -137,8 +141,28 @@ Definition model_obs (c : tcase) (o : tobs) : bool :=
                        (content_text (c_ha c) (c_va c) (c_W c) (c_H c) (c_w c) (c_h c) (c_lines c)
                                      (o_tl o) (o_tt o) (o_cols o) (o_rows o))).
 
+(** flow sizing: model = observation (announced rows, canvas size, image size) *)
+Definition flow_model_ok (c : tcase) : bool :=
+  match c_flow c with
+  | [] => true
+  | [up; maxcol; fw; fh; ow; oh; rb; ra] =>
+    let u := negb (up =? 0) in
+    (rows u (fw, fh) (ow, oh) =? rb) && (rows u (fw, fh) (ow, oh) =? ra)
+    && (let '(cw, ch) := flow_canvas_size maxcol u (fw, fh) (ow, oh) in (cw =? c_W c) && (ch =? c_H c))
+    && (let '(iw, ih) := flow_image_size u (fw, fh) (ow, oh) in (iw =? c_w c) && (ih =? c_h c))
+  | _ => false
+  end.
+
+(** specification: the rows announced (before and after rendering) are the rows rendered *)
+Definition flow_spec_ok (c : tcase) : bool :=
+  match c_flow c with
+  | [] => true
+  | [up; maxcol; fw; fh; ow; oh; rb; ra] => (rb =? c_H c) && (ra =? c_H c) && (maxcol =? c_W c)
+  | _ => false
+  end.
+
 Definition model_ok (c : tcase) : bool :=
-  (c_gfx c || shape_ok c)
+  (c_gfx c || shape_ok c) && flow_model_ok c
   && (Z.of_nat (length (c_lines c)) =? c_H c)
   && forallb (model_obs c) (c_obs c).
 
@@ -180,7 +204,7 @@ Definition spec_obs (c : tcase) (full : list (list tok * nat)) (o : tobs) : bool
 
 Definition spec_ok (c : tcase) : bool :=
   let full := lookup c (c_full c) (c_fd c) in
-  (Z.of_nat (length full) =? c_H c)
+  (Z.of_nat (length full) =? c_H c) && flow_spec_ok c
   && (c_gfx c || forallb (row_ok (c_W c)) full)
   && forallb (spec_obs c full) (c_obs c).
 
@@ -196,7 +220,7 @@ Definition bad (cases : list tcase) : list (nat * nat) :=
     for the observations that fail either *)
 Definition explain (c : tcase) :=
   let full := lookup c (c_full c) (c_fd c) in
-  (c_gfx c || shape_ok c, Z.of_nat (length (c_lines c)) =? c_H c,
+  (c_gfx c || shape_ok c, Z.of_nat (length (c_lines c)) =? c_H c, (flow_model_ok c, flow_spec_ok c),
    filter (fun t => negb (snd (fst t) && snd t))
           (map (fun p => (fst p, model_obs c (snd p), spec_obs c full (snd p)))
                (index_from 0 (c_obs c)))).
